@@ -17,6 +17,12 @@ PKG=$(grep -oE 'internal/[a-zA-Z_/]+/[A-Za-z0-9_]+_test\.go' "$SRC/demo.txt" | h
 [ -z "$PKG" ] && PKG=$(grep -oE '\./internal/[a-zA-Z_/]+' "$SRC/demo.txt" | head -1 | sed 's#^\./##;s#/$##')
 RUN=$(grep -o "\-run '[^']*'" "$SRC/demo.txt" | head -1 | sed "s/-run '//;s/'$//")
 [ -z "$RUN" ] && RUN=$(grep -o '\-run [A-Za-z0-9_|^$]*' "$SRC/demo.txt" | head -1 | sed 's/-run //')
+# a parsed -run value that names no test function of the demonstration files is a parsing accident: use all of them
+NAMES=$(grep -ohE '^func (Test[A-Za-z0-9_]+)' $DEMOS 2>/dev/null | sed 's/^func //' | sort -u | tr '\n' '|' | sed 's/|$//')
+if [ -n "$NAMES" ]; then
+  PLAIN=$(echo "$RUN" | sed 's/[$^]//g')
+  echo "$NAMES" | tr '|' '\n' | grep -q "^${PLAIN%%|*}" || RUN="$NAMES"
+fi
 [ -n "$SEEDRUN" ] && RUN="$SEEDRUN"
 echo "pkg=$PKG run=$RUN demos=$DEMOS" >>"$LOG"
 for d in $DEMOS; do cp "$d" "$WT/$PKG/"; done
